@@ -342,7 +342,9 @@ func init() {
 			if !pt.Ref.OK {
 				return nil
 			}
-			return []proto.Mode{memoMode}
+			// the second mode is not judged here: it is there for the runner's check that a
+			// second instance set up from the same option value leaves this one's results alone
+			return []proto.Mode{memoMode, {Size: 65}}
 		},
 		Judge: func(c *drv.Ctx, pt *Point, l *lab.Lab) []Mismatch {
 			o := obsOf(pt, "v0", memoMode)
@@ -438,7 +440,7 @@ func init() {
 			if !pt.Ref.OK {
 				return nil
 			}
-			return []proto.Mode{printMode}
+			return []proto.Mode{printMode, {Size: 65}} // the second one for the sibling-instance check of the runner
 		},
 		Judge: func(c *drv.Ctx, pt *Point, l *lab.Lab) []Mismatch {
 			o := obsOf(pt, "v0", printMode)
@@ -733,7 +735,9 @@ func init() {
 	c13 := &LabProp{
 		ID:       "C13",
 		Variants: lab.AllVariants,
-		Chunks:   func(c *drv.Ctx) int { return c.Pick(1, 8) },
+		// offsets must index the input at hand, also on an instance that has seen other inputs
+		ReuseModes: []proto.Mode{memoMode},
+		Chunks:     func(c *drv.Ctx) int { return c.Pick(1, 8) },
 		Opts: func(c *drv.Ctx) lab.CollectOpts {
 			return lab.CollectOpts{N: c.Pick(72, 160), Profiles: []string{"switchy", "plain", "switchy", "liney", "deep", "actiony", "switchy", "backtracky"},
 				Inputs: c.Pick(12, 20), Hostile: true, Long: true, MaxRune: true}
